@@ -6,13 +6,15 @@ Inductive c22case :=
 (* kind: 0 CompressHandlerLevel, 1 CompressHandlerBrotliLevel, 2 CompressHandler.  chunks: lengths of the handler's body
    (one entry when buffered).  Observed: Content-Encoding, Vary lines, error while producing the body, and whether the
    body decodes (with the real decoders, per the declared Content-Encoding; raw when it is the handler's own) to the
-   handler's body. *)
-| CHandler (kind : N) (bl ol : Z) (ae : list bytes) (ct pre_ce : bytes) (vary : list bytes) (streamed : bool) (chunks : list Z)
+   handler's body.  twice: the handler is wrapped twice; nodefct: Header.SetNoDefaultContentType(true). *)
+| CHandler (kind : N) (twice nodefct : bool) (bl ol : Z) (ae : list bytes) (ct pre_ce : bytes) (vary : list bytes) (streamed : bool) (chunks : list Z)
            (o_ce : bytes) (o_vary : list bytes) (o_err o_decoded : bool)
-(* k: 0 gzip 1 deflate 2 br 3 zstd; path: 0 Append*BytesLevel, 1 Write*Level to *bytes.Buffer, 2 Write*Level to a generic writer *)
+(* k: 0 gzip 1 deflate 2 br 3 zstd; path: 0 Append*BytesLevel, 1 Write*Level to *bytes.Buffer, 2 Write*Level to a generic writer,
+   3 Write*Level to *bytebufferpool.ByteBuffer, 4 Append*Bytes (default level), 5 Write* (default level) to *bytes.Buffer *)
 | CCodec (k : N) (lvl : Z) (path : N) (dstlen srclen : Z) (o_err o_prefix o_decoded : bool)
 (* saturated stackless queues (child process, GOMAXPROCS(1)); scenario: 0 func-full 1 func-stress 2 writer-close-dropped
-   3 stream-close-dropped 4 writer-full-at-write *)
+   3 stream-close-dropped 4 writer-full-at-write; 5.. reuse of pooled readers/writers after an error (n operations after
+   the failed one, bad of them wrong) *)
 | CSat (scenario : N) (k : N) (lvl : Z) (n bad errors : Z) (full : bool)
 | CConst (zstd_notset zstd_default zstd_best : Z)
 | CHas (ae t : bytes) (o : bool).
@@ -28,8 +30,8 @@ Definition dec0 (k : coding) (x : bytes) : bytes := x.
 Definition zeros (l : Z) : bytes := repeat 0 (Z.to_nat (Z.min l 4096)).
 Definition cap1 : Z := 2048.
 
-Definition mk_resp (ct pre_ce : bytes) (vary : list bytes) (streamed : bool) (chunks : list Z) : resp :=
-  {| r_ce := pre_ce; r_ct := ct; r_vary := vary; r_streamed := streamed; r_chunks := map zeros chunks |}.
+Definition mk_resp (nodefct : bool) (ct pre_ce : bytes) (vary : list bytes) (streamed : bool) (chunks : list Z) : resp :=
+  {| r_ce := pre_ce; r_ct := ct; r_nodefct := nodefct; r_vary := vary; r_streamed := streamed; r_chunks := map zeros chunks |}.
 
 Definition kind_of (kind : N) : hkind := match kind with 1 => HBrotli | _ => HLevel end.
 Definition other_level (kind : N) (ol : Z) : Z := match kind with 2 => CompressDefaultCompression | _ => ol end.
@@ -42,8 +44,10 @@ Definition sres_matches (s : sres) (o_err o_decoded : bool) : bool :=
 
 Definition corr_ok (c : c22case) : bool :=
   match c with
-  | CHandler kind bl ol ae ct pre_ce vary streamed chunks o_ce o_vary o_err o_decoded =>
-      let '(_, m) := compress_handler enc0 (kind_of kind) bl (other_level kind ol) ae 0 cap1 [] (mk_resp ct pre_ce vary streamed chunks) in
+  | CHandler kind twice nodefct bl ol ae ct pre_ce vary streamed chunks o_ce o_vary o_err o_decoded =>
+      let r := mk_resp nodefct ct pre_ce vary streamed chunks in
+      let m := if twice then compress_handler_twice enc0 (kind_of kind) bl (other_level kind ol) ae 0 cap1 [] r
+               else snd (compress_handler enc0 (kind_of kind) bl (other_level kind ol) ae 0 cap1 [] r) in
       beq (c_ce m) o_ce && list_eqb beq (c_vary m) o_vary && sres_matches (c_body m) o_err o_decoded
   | CCodec k lvl path dstlen srclen o_err o_prefix o_decoded =>
       let kk := coding_of k in
@@ -62,7 +66,9 @@ Definition corr_ok (c : c22case) : bool :=
       | 1 => (errors =? 0)%Z && (bad =? 0)%Z
       | 2 => full && sres_matches (write_generic enc0 kk lvl (zeros 100) false true) (0 <? errors)%Z (bad =? 0)%Z
       | 3 => full && sres_matches (stream_compress enc0 kk lvl [zeros 100] [false; false; true]) (0 <? errors)%Z (bad =? 0)%Z
-      | _ => full && sres_matches (write_generic enc0 kk lvl (zeros 100) true false) (0 <? errors)%Z (bad =? 0)%Z
+      | 4 => full && sres_matches (write_generic enc0 kk lvl (zeros 100) true false) (0 <? errors)%Z (bad =? 0)%Z
+      | _ => (* pools are invisible in the model: what follows a failed operation behaves like a first use *)
+             (errors =? 0)%Z && (bad =? 0)%Z
       end
   | CConst a b c' => (a =? CompressZstdSpeedNotSet)%Z && (b =? CompressZstdDefault)%Z && (c' =? CompressZstdBestCompression)%Z
   | CHas ae t o => Bool.eqb (has_accept_encoding ae t) o
@@ -74,7 +80,7 @@ Definition is_nil {A} (l : list A) : bool := match l with [] => true | _ => fals
    syntactically valid Accept-Encoding fields only (RFC 9110 does not say what an element like "foo gzip" accepts). *)
 Definition prop_ok (c : c22case) : bool :=
   match c with
-  | CHandler kind bl ol ae ct pre_ce vary streamed chunks o_ce o_vary o_err o_decoded =>
+  | CHandler kind twice nodefct bl ol ae ct pre_ce vary streamed chunks o_ce o_vary o_err o_decoded =>
       negb o_err && o_decoded
       && (if is_nil pre_ce
           then (* compressed iff a Content-Encoding appeared: it must be a coding the request accepts, with Vary *)
